@@ -30,7 +30,7 @@ PROPS = {
                 'Replay-loop arms proved equal to the replay rule replay_entry (O-C01-replay assertions, loop invariant I-C01-replay-items); '
                 'every mutator proved to write exactly the entry whose replay on the pre-state gives the post-state (O-C01-commute-*, O-C12-one); '
                 'entry codec proved inverse for all four kinds (lemma_parse_ser_entry, lemma_parse_ser_items); reader hands its exact cursor to the writer (O-C01-cursor).',
-        kani_quick=[], kani_thorough=[],
+        kani_quick=[], kani_thorough=['E-dmg', 'E-hist-deep'],
         trusted=[FS, 'MultiRecord::{serialize,serialize_with_pos} are VERIFIED over the assumed contracts of bytes::Buf (R10: a cursor over a byte string; chunk() a non-empty prefix while bytes remain) and of (start..).zip(it) (R19); the payload iterator is assumed to obey vstd\'s iterator laws and to be finite (iter_ok, a precondition of append_records)', 'MemQueues::empty_queues (assumed: yields exactly the empty queues, each once)'],
         not_decided=['that GC never deletes a file still needed (Arc strong counts, see C06)', 'BufWriter flush on drop (std)',
                      'directory listing', 'the glue between the spec-level lemmas (L-C01 lemma_replay_history, L-C07 lemma_roundtrip_all) and the file system: that the blocks open() reads are the bytes the writer was handed (trusted FS layer)'],
@@ -43,7 +43,7 @@ PROPS = {
                 'The block writer itself is verified: RollingWriter::persist implements BlockWrite::persist over the ghost lengths of the BufWriter<File> stand-in (flush => flushed == written; fdatasync => synced == flushed), '
                 'and at a file roll-over the file being left is proved fully flushed and fsynced before its handle is dropped (P-C03-rollover-ghost; wr_wf: every file left behind is durable); '
                 'the directory fsync is still called on both paths (O-C03-*-dir-sync, structural).',
-        kani_quick=[], kani_thorough=[],
+        kani_quick=[], kani_thorough=['E-hist'],
         trusted=[FS, 'PersistState::update_persisted / From<PersistPolicy> are VERIFIED (Instant::now() + d through the stand-in R21, which has no contract)'],
         not_decided=['that recovery from the synced/flushed image yields a state at least as recent (needs a crash model: C02)',
                      'what fsync of the directory achieves (no ghost effect modelled; only its presence is checked)',
@@ -55,7 +55,7 @@ PROPS = {
                 'explicit stale positions are rejected (O-C04-past, O-C05-append-past), replay restores the next position (O-C09-ack, P-C01-replay-pos). '
                 'GC: record_empty_queues_position is verified to write a RecordPosition entry (name, next position) for EVERY empty queue and to fsync if it wrote anything (O-C04-gc-positions, O-repq-sync); '
                 'the WAL is synced before directory().gc() (O-C03-gc); gc() is called from nowhere else (O-gc-callsite); the current file stays pinned across the pass (O-C01-gc-pin).',
-        kani_quick=[], kani_thorough=[],
+        kani_quick=[], kani_thorough=['E-hist'],
         trusted=[FS, 'MemQueues::empty_queues (assumed: yields exactly the empty queues, each once)'],
         not_decided=['crash variants (C02)'],
     ),
@@ -63,7 +63,7 @@ PROPS = {
         level='proof',
         explain='MemQueue/MemQueues/MultiRecordLog operations proved against the sequential queue-map spec (QView, LogView) written from the property text, '
                 'over the whole view, including the wrapper append_record (= append_records of a one-element batch, @sameas) and position_to_idx (over the assumed std contract of binary_search_by_key, cross-checked bounded by K-p2i); RollingBuffer::get_range is VERIFIED for every bound kind and every ring layout (O-C05-getrange: left slice, right slice, re-assembly across the wrap; rule R22); MemQueue::range, MemQueues::range and MultiRecordLog::range are VERIFIED (O-C05-range, O-C05-mqs-range, O-C05-api-range): for every range and every queue the iterator yields exactly the retained records whose position lies in the range -- a contiguous run of the view, in order, byte for byte, and no record outside the run is in range -- over the assumed std contract of the `(a..b).take_while(p).map(f)` adapter chain (R24) and of RangeBounds::{start_bound,contains} (R22); the Kani harnesses K-range-*, K-getrange-* stay in the thorough tier as bounded cross-checks of those assumed contracts on the real code. summary (MemQueue / MemQueues / MultiRecordLog) and list_queues are VERIFIED: the summary has exactly the queues of the view with their start and last positions (O-C05-summary, loop over the vstd contract of HashMap::iter, R13); list_queues yields exactly the queue names, each once (O-C05-list, R28 shim for Iterator::map over the vstd contract of HashMap::keys).',
-        kani_quick=[], kani_thorough=['K-p2i'] + ['K-getrange-r%d' % r for r in range(4)] + ['K-range-%s' % k for k in ('ii', 'ie', 'iu', 'ei', 'ee', 'eu', 'ui', 'ue', 'uu')],
+        kani_quick=[], kani_thorough=['K-p2i'] + ['K-getrange-r%d' % r for r in range(4)] + ['K-range-%s' % k for k in ('ii', 'ie', 'iu', 'ei', 'ee', 'eu', 'ui', 'ue', 'uu')] + ['E-hist-deep'],
         trusted=['RangeBounds::{start_bound,end_bound} through a generic bound return vstd\'s spec value (R22 shims) and VecDeque::as_slices().0 ++ .1 == contents (assumed std contracts; K-getrange cross-checks both on the real code, bounded)', '<[T]>::binary_search_by_key, iter::once (assumed std contracts; K-p2i cross-checks the former, bounded)', '(a..b).take_while(p).map(f) yields f(a..k) up to the first index p rejects (R24 shim, assumed std contract; K-range-* cross-check it on the real code, bounded)',
                  'MultiRecord::{serialize,serialize_with_pos} are VERIFIED over the assumed contracts of bytes::Buf (R10: a cursor over a byte string; chunk() a non-empty prefix while bytes remain) and of (start..).zip(it) (R19); the payload iterator is assumed to obey vstd\'s iterator laws and to be finite (iter_ok, a precondition of append_records)', 'HashMap::get_mut (assumed std contract)', 'RollingBuffer::extend'],
         not_decided=['QueueSummary.file_number (MemQueue::first_file_number, a filter_map chain over Arc handles) is not specified'],
@@ -79,7 +79,7 @@ PROPS = {
                 '(3) E-gate, BOUNDED, native exhaustive enumeration (not symbolic; CBMC exceeds 12 GB on any BTreeSet<FileNumber>): for trackers of 1..=5 files and every subset of pinned files, the GC gate has_files_that_can_be_deleted() is true exactly when a GC pass removes a file, and the pass removes exactly the unpinned prefix short of the last file. '
                 '(4) E-c06, BOUNDED, native exhaustive enumeration of HISTORIES against the real MultiRecordLog on real (4-block) WAL files: two queues, every history of at most 4 operations out of 11 (small / block-spilling append, truncate all / half, delete+recreate, reopen; 16104 histories): after every truncate / delete / open the directory is exactly the contiguous run of tracked files, holds no file older than both the oldest retained record and the file being written when the call began, and disk_used_bytes is their total size. '
                 'Structural obligations pin the ownership facts no contract can state: O-C06-handle-holders (only RecordMeta, the reader / writer and the tracker hold a FileNumber), O-C06-no-stray-handle-* (no local handle alive at the GC pass), O-C06-gc-after-release-* (the in-memory update precedes the GC pass).',
-        kani_quick=['K-handles', 'E-gate', 'E-c06'], kani_thorough=[],
+        kani_quick=['K-handles', 'E-gate', 'E-c06'], kani_thorough=['E-hist'],
         trusted=['everything outside the harness'],
         not_decided=['that can_be_deleted() is true exactly when no queue retains a record of the file (Arc strong counts; bounded K-handles only)', 'the directory listing itself', 'disk_used_bytes == tracked files x 128 MiB is verified (resource_usage O-C06-disk-used over RollingWriter::size O-rwr-size); that the files on disk have that size is not'],
     ),
@@ -90,7 +90,7 @@ PROPS = {
                 'no frame crosses a block (precondition of BlockWrite::write discharged at every call). '
                 'Composition L-C07 (spec/vroundtrip.rs, lemma_roundtrip_all): for every stream offset and every sequence of entries of any sizes, reading (rec_step) what was written (enc) '
                 'returns exactly the entries, in order, and leaves the reader exactly behind them.',
-        kani_quick=['K-hdr'], kani_thorough=[],
+        kani_quick=['K-hdr'], kani_thorough=['E-dmg'],
         trusted=[FS, 'crc32 uninterpreted'],
         not_decided=['file roll-over (RollingWriter::write): the mapping byte stream <-> blocks of successive files is trusted'],
     ),
@@ -100,7 +100,7 @@ PROPS = {
                 'Mechanism level: a frame is delivered only if its CRC matches the stored one at the parse cursor (O-C08-step vs frame_step), undecodable/over-long frames quarantine the block, '
                 'any bad frame abandons the entry being assembled (O-C12-deliver vs rec_step), entry and batch structure re-validated (O-de-spec vs parse_entry, O-C12-validate), '
                 'queue invariant (strictly increasing positions) preserved by every replay operation.',
-        kani_quick=['K-hdr'], kani_thorough=[],
+        kani_quick=['K-hdr'], kani_thorough=['E-dmg'],
         trusted=[FS, 'crc32 uninterpreted ("genuine" = assembled only from CRC-valid frames)'],
         not_decided=['relating a CRC-valid frame to the history that wrote it'],
     ),
@@ -110,7 +110,7 @@ PROPS = {
                 'Composition L-C09 (spec/vdamage.rs, lemma_one_damaged_entry / _replay): for every stream offset, every sequence of entries and every frame of every entry, damage confined to the checksum / payload bytes of that ONE frame (detected by the CRC) makes recovery deliver exactly the other entries, whole and in order, and compute the replay of exactly those (replay_log == replay_bytes(entries.remove(j))). '
                 'Mechanism level: on CRC mismatch the cursor advances by exactly 7+len and the block is kept (frame_step Corrupt arm, O-C08-step); '
                 'replay tolerance: ack_position implements log_ack (O-C09-ack), gaps in positions accepted (O-C05-append), unknown DeleteQueue ignored (P-C01-replay-delete).',
-        kani_quick=[], kani_thorough=[],
+        kani_quick=[], kani_thorough=['E-dmg'],
         trusted=[FS], not_decided=['the last step of the history-level statement: that the replay of the history minus one entry retains every record whose append was not hit (follows from the replay tolerance rules O-C09-ack / gaps accepted, not composed into one lemma)'],
     ),
     'C10': dict(
@@ -118,7 +118,7 @@ PROPS = {
         explain='Panic freedom and termination of everything above the FS layer, with NO precondition on block contents: every index, slice, unwrap, +,-,*, cast and assert! (R5) in '
                 'the reader stack, decoders, replay loop and accessors is a discharged obligation; loops carry decreases clauses. '
                 'Directory listing: filename_to_position (str byte reasoning, outside Verus) is decided by CBMC over ALL 24-byte names not to panic (K-fname, K-fname-nb: including names whose byte 4 is not a char boundary) and over all other lengths (K-fname-len).',
-        kani_quick=['K-fname-nb', 'K-fname', 'K-fname-len'], kani_thorough=[],
+        kani_quick=['K-fname-nb', 'K-fname', 'K-fname-len'], kani_thorough=['E-dmg', 'E-hist'],
         trusted=[FS], not_decided=['allocation without bound', 'panic freedom of the std FS calls themselves'],
     ),
     'C11': dict(
@@ -135,26 +135,26 @@ PROPS = {
         explain='One call = one entry carrying the whole serialized batch (O-C12-one); an entry is delivered only from an intact First..Last run (O-C12-deliver vs rec_step); '
                 'the batch is validated before any record of it is applied (O-C12-validate). '
                 'Composition L-C12 (spec/vtorn.rs, lemma_torn_tail): for every stream offset, every sequence of entries of any sizes and EVERY cut point (byte granularity), a WAL that reads as zeros behind the cut is recovered as a PREFIX of the entries written, each whole, followed by the end of the log (after at most one Corruption) -- no batch with a hole or a missing tail, nothing from behind the cut; hypothesis: the checksum tells a frame payload from its zero-tailed truncations (the "up to a CRC-32 collision" of the property, shown satisfiable); at the logical level (lemma_torn_tail_replay) open then computes the replay of a prefix of the entries written.',
-        kani_quick=[], kani_thorough=[],
+        kani_quick=[], kani_thorough=['E-dmg', 'E-hist'],
         trusted=[FS, 'MultiRecord::{serialize,serialize_with_pos} are VERIFIED over the assumed contracts of bytes::Buf (R10: a cursor over a byte string; chunk() a non-empty prefix while bytes remain) and of (start..).zip(it) (R19); the payload iterator is assumed to obey vstd\'s iterator laws and to be finite (iter_ok, a precondition of append_records)'], not_decided=['in-place damage other than a zero tail (bit flips, garbage): decided per frame by O-C08-step / O-C12-deliver, not composed over histories', 'that a crashed file system presents a zero tail (sequential writes into pre-zeroed files): assumption about the FS, see C02'],
     ),
     'C13': dict(
         level='proof',
         explain='On AlreadyExists / MissingQueue / Past / retry of last position / empty batch: view, WAL byte stream and durable lengths are unchanged and wal_bytes_written == 0 '
                 '(O-C13-create/delete/append/trunc via same_as).',
-        kani_quick=[], kani_thorough=[], trusted=[FS], not_decided=['restart half follows from the unchanged WAL (C01)'],
+        kani_quick=[], kani_thorough=['E-hist'], trusted=[FS], not_decided=['restart half follows from the unchanged WAL (C01)'],
     ),
     'C14': dict(
         level='proof',
         explain='Every API postcondition of C05/C13/C15 is proved with no hypothesis on next_persist; persist / persist_on_policy leave view and WAL unchanged (O-C14-*). '
                 'A syntactic frame check confirms next_persist is only read inside persist_on_policy.',
-        kani_quick=[], kani_thorough=[], trusted=[FS, 'BufWriter flush on drop'], not_decided=['clean-restart half delegated to C01'],
+        kani_quick=[], kani_thorough=['E-hist'], trusted=[FS, 'BufWriter flush on drop'], not_decided=['clean-restart half delegated to C01'],
     ),
     'C15': dict(
         level='proof',
         explain='write_frame returns pad+7+len and appends exactly those bytes (O-C15-frame); write_record returns enc(..).len() (O-C15-record, loop invariant on the running sum); '
                 'each mutator returns wal.len() - old wal.len() including GC bytes (O-C15-api-*, O-C15-gc); 0 exactly on the C13 paths.',
-        kani_quick=[], kani_thorough=[], trusted=[FS + ' (RollingWriter::write appends exactly buf)'],
+        kani_quick=[], kani_thorough=['E-hist'], trusted=[FS + ' (RollingWriter::write appends exactly buf)'],
         not_decided=[],
     ),
     'C16': dict(
@@ -164,7 +164,7 @@ PROPS = {
                 '(so: at least names + payload, and above them by exactly c per retained record: O-C16-bounds), memory_allocated_bytes >= memory_used_bytes (O-C16-alloc), the names-only baseline when every queue is empty (O-C16-baseline), '
                 'and truncate lowers used_view by exactly the evicted payload bytes plus c per evicted record (O-C16-api-trunc, from the view transition and the spec lemma lemma_used_truncate). '
                 'The sums are defined order-independently over finite maps (spec/vsum.rs: wsum and its lemmas, proved once); MemQueues::size is verified to return them whatever order the HashMap iterates in (O-C16-mqs-size, lemma_wsum_enumeration).',
-        kani_quick=[], kani_thorough=[],
+        kani_quick=[], kani_thorough=['E-hist'],
         trusted=['std contract of Iterator::map(..).sum() (R31 shim iter_map_sum: the sum of the closure over the items when it fits usize) and of HashMap::iter (vstd: every entry exactly once)',
                  'A-mem-total: the two totals MemQueues::size adds up fit usize (all those bytes live in one address space)',
                  'Vec / VecDeque / String capacity >= len (std)'],
@@ -177,7 +177,7 @@ PROPS = {
                 'FS effects: Directory::gc (verified) removes only files popped from the tracker (O-C06-gc-prefix) and names them with filepath(dir, tracked number) (O-C17-remove-path); '
                 'structural obligations over the whole crate: remove_file/rename/... occur only in Directory::gc (O-C17-remove-site), files are opened/created only in create_file, Directory::open_file and sync_directory '
                 '(O-C17-open-sites), each through filepath(dir, tracked number) (O-C17-create-path, O-C17-open-path). Directory::open is VERIFIED (O-C17-open-listing): over the ghost listing of the directory, the tracker holds exactly the numbers of the entries that are regular files (the entry itself, not a symlink target) whose name is valid UTF-8 and parses as a WAL name -- nothing else in the directory is ever tracked, hence read, written or removed; file 0 is created only when no such entry exists. Ownership invariant tracked_present (part of RollingWriter::wr_wf and RollingReader::rd_wf): every tracked number names a WAL file that Directory::open listed or create_file created (create_new); BlockWrite::write keeps wr_wf also when it FAILS (O-BW-write-wf-kept) -- this is the obligation that failed on the unrepaired tree (finding F4: a number whose file could not be created stayed tracked, and a retried write wrote into a foreign file through a symlink).',
-        kani_quick=['K-fname', 'K-fname-nb', 'K-fname-len', 'E-fname-rt'], kani_thorough=[],
+        kani_quick=['K-fname', 'K-fname-nb', 'K-fname-len', 'E-fname-rt'], kani_thorough=['E-hist'],
         trusted=['Kani/CBMC', 'filepath = dir.join(filename()) (Path::join)', 'the link between the Verus contract of filename_to_position (A-f2p: result == parse_wal_name(chars)) and what Kani decides over bytes (ASCII: one byte per char); names longer than 32 bytes are outside K-fname-len', 'std contracts of read_dir / DirEntry / FileType / OsStr (assumed, spec/std_specs.rs)'],
         not_decided=['that the OS listing is what is on disk; concurrent modification of the directory'],
     ),
@@ -185,6 +185,6 @@ PROPS = {
         level='proof',
         explain='Whole-map frame postconditions: every MemQueues operation and every API mutator on queue q ensures view == old view.insert(q, .) / .remove(q) / old view; '
                 'each replay arm touches only the queue named in the entry (replay_entry).',
-        kani_quick=[], kani_thorough=[], trusted=[FS], not_decided=['restart/GC/crash halves inherit the limits of C01/C06/C02'],
+        kani_quick=[], kani_thorough=['E-hist'], trusted=[FS], not_decided=['restart/GC/crash halves inherit the limits of C01/C06/C02'],
     ),
 }
